@@ -31,7 +31,9 @@ def cache_for(fields, presence, order=0):
         idx = idx[::-1]
     elif order == 2:
         idx = idx[len(idx) // 2:] + idx[:len(idx) // 2]
-        out = {'zeta': b'z'}
+        # unrelated embedder keys, some spelled almost like a sigfield: none of them is part of any message
+        out = {'zeta': b'z', 'sigfield9': b'nine', 'sigfield0': b'zero', 'sigfield10': b'ten', 'sigfield': b'bare', 'SIGFIELD1': b'upper',
+               b'sigfield1': [b'bytes key'], 'sigfield1 ': b'space'}
         for i in idx:
             out[NAMES[i]] = fields[i]
             out['other%d' % i] = b'o'
@@ -132,6 +134,23 @@ def blockB(ctx, case):
         if r is not None or st != []:
             ctx.violation({'op': 'SIGN->CHECK_SIG_VERIFY', 'clause': 'sign-then-check succeeds for every allowed flag'},
                           f'presence={presence:02x} flag={flag:02x}: {r!r} {st}')
+        if variant == 0 and flag in (0, 1, 0x80) and presence in (0, 1, 0xff):
+            # the signing key is a 32-byte seed: every other length is an error for both signing instructions, and every bit of it matters
+            for kl in (0, 1, 31, 33, 63, 64, 65, 96):
+                bad = (ks * 3)[:kl]
+                for iname, code in (('SIGN', op('SIGN') + bytes([flag])), ('SIGN_STACK', op('SIGN_STACK'))):
+                    pre = (push(b'm') if iname == 'SIGN_STACK' else b'') + (push(bad) if kl else b'\x03\x00')
+                    r, st, _ = run(pre + code, cache)
+                    ctx.ran(); ctx.trans(2)
+                    if r is None:
+                        ctx.violation({'op': iname, 'clause': 'signing key length'}, f'{kl}-byte key: no error, stack {[x.hex()[:20] for x in st]}')
+            if presence == 0xff and flag == 0:
+                for bit in range(256):
+                    k2 = flip(ks, bit)
+                    r, st, _ = run(push(k2) + op('SIGN') + b'\x00', cache)
+                    ctx.ran(); ctx.trans(2)
+                    if r is not None or st != [refed.sign(k2, m)]:
+                        ctx.violation({'op': 'SIGN', 'clause': 'every bit of the signing key matters'}, f'bit {bit}: {r!r}')
         # the same signature checked under another key
         pk2 = refed.public_key(keyseed(seed, 2))
         r, st, _ = run(push(want_sig) + push(pk2) + op('CHECK_SIG') + b'\xff', cache)
